@@ -32,7 +32,13 @@ class StubDist:
         self.sample_calls.append({"args": args, "sample_shape": sample_shape, "nonce": nu})
         p = [_toreal(_lift(a)) if not isinstance(a, Tensor) else a for a in args] + [z3.RealVal(0)] * (2 - len(args))
         if any(isinstance(a, Tensor) for a in p):
-            raise EngineLimit("stub sample with tensor parameters")
+            if sample_shape not in ((), None):
+                raise EngineLimit("stub sample with tensor parameters and sample_shape")
+            ts = [a if isinstance(a, Tensor) else Tensor((), lambda idx, a=a: a) for a in p[:2]]
+            shp, ia, ib = broadcast_shapes(ts[0].shape, ts[1].shape)
+            if len(shp) != 1:
+                raise EngineLimit("stub sample with rank-%d parameters" % len(shp))
+            return Tensor(shp, lambda idx: DrawRI(self.id, nu, idx[0], _toreal(ts[0].fn(ia(idx))), _toreal(ts[1].fn(ib(idx)))))
         shape = tuple(sample_shape) if isinstance(sample_shape, (tuple, list)) else (sample_shape,)
         if not shape:
             return Sym(DrawR(self.id, nu, p[0], p[1]))
